@@ -228,6 +228,32 @@ func selfTest() (programs int, executions int64, failure string) {
 	}}
 	o, n, h = rw.outcomes(0, -1)
 	check("rwmutex/writer-preference", o, n, h, []string{"done:W R2"}, -1)
+	// 5b. TryLock sees a held lock only when acquisitions are followed by a "holding" point (switched on for libraries
+	// that use Try methods)
+	for _, hp := range []bool{false, true} {
+		hp := hp
+		tl := selfProg{name: "trylock", body: func(obs *[]string) {
+			old := vsync.HoldPoints
+			vsync.HoldPoints = hp
+			sched.OnEnd(func() { vsync.HoldPoints = old })
+			var mu vsync.Mutex
+			sched.Spawn("holder", func() { mu.Lock(); mu.Unlock() })
+			sched.Spawn("trier", func() {
+				if mu.TryLock() {
+					*obs = append(*obs, "got")
+					mu.Unlock()
+				} else {
+					*obs = append(*obs, "busy")
+				}
+			})
+		}}
+		o, n, h = tl.outcomes(2, -1)
+		if hp {
+			check("trylock/hold-points", o, n, h, []string{"done:busy", "done:got"}, -1)
+		} else {
+			check("trylock/acquire-points-only", o, n, h, []string{"done:got"}, -1)
+		}
+	}
 	// 6. the pool's Get is every pooled object or a miss; map iteration is every permutation
 	pool := selfProg{name: "pool", cfg: sched.Config{PoolFanout: true}, body: func(obs *[]string) {
 		p := &vsync.Pool{New: func() interface{} { s := "new"; return &s }}
